@@ -772,6 +772,19 @@ def vec_retain(I, c):
     return UNIT
 
 
+@model_re(r'^(std::vec::)?Vec::(dedup)$')
+def vec_dedup(I, c):
+    # removes CONSECUTIVE repeated elements only (PartialEq), keeping the first of each run
+    v = _vc(c.args[0])
+    keep = []
+    for x in v.e:
+        if keep and I.fork(I.values_eq(keep[-1], x)):
+            continue
+        keep.append(x)
+    v.e[:] = keep
+    return UNIT
+
+
 @model_re(r'^(std::vec::)?Vec::(truncate)$')
 def vec_truncate(I, c):
     v = _vc(c.args[0])
